@@ -80,7 +80,26 @@ def run(ctx) -> None:
         t = tests[0]
         neg = norm(t.ast).startswith("not ")
         refused = "T" if neg else "F"
-        p = g.search([(t.id, refused)], lambda n: n.id == adds[0].id, follow_exc=False)
+        # A request or command instance arrives here after its command has been cancelled (CommandManager._cancel_command): that
+        # cancellation is a fact and is recorded whatever the node says (C10 R10f). The rule is about requests that name the node.
+        from ..util import local_single_defs as _lsd12a
+        ld12 = _lsd12a(f)
+        ipar12 = [a.arg for a in f.node.args.args if a.arg != "self"][0]
+
+        def cmd_side(sid, dd, lab, g=g, ld12=ld12, ipar12=ipar12):
+            nd = g.nodes[sid]
+            if nd.kind != "test" or lab not in ("T", "F"):
+                return False
+            e = nd.ast
+            if isinstance(e, ast.Name) and e.id in ld12:
+                e = ld12[e.id]
+            tx = norm(e)
+            if tx.startswith(f"isinstance({ipar12},") and ("CommandRequest" in tx or "EngineCommand" in tx) and ".Node" not in tx:
+                return lab == "T"
+            if tx.startswith(f"isinstance({ipar12},") and ".Node" in tx and "CommandRequest" not in tx:
+                return lab == "F"
+            return False
+        p = g.search([(t.id, refused)], lambda n: n.id == adds[0].id, follow_exc=False, blocked_edge=cmd_side)
         inst = f"Tracking.{mname}: {state} recorded only after node.{op}() succeeded"
         if p is None:
             ctx.ok("R12a", inst)
